@@ -5,14 +5,17 @@
    back ends that agree on e / AES-CMAC agree on all of them; a generated resolvable private
    address resolves under its key and has type bits 01; the built-in ECDH (after
    fixes/D14.patch) rejects every coordinate pair that is not a point of P-256; the AES tables
-   in the source are the FIPS-197 ones and the curve constants are those of P-256.
-   NOT proved: anything about the OpenSSL-backed back end; that the T-table AES rounds equal
-   the FIPS-197 round functions for all inputs; ECDH symmetry (needs the group law).
+   in the source are the FIPS-197 ones, the T-table AES-128 as written is the FIPS-197 cipher
+   with the FIPS-197 key schedule for every key and block, and the curve constants are those
+   of P-256.
+   NOT proved: anything about the OpenSSL-backed back end; ECDH symmetry and correctness of
+   the Jacobian arithmetic (needs the elliptic-curve group law).
    This file contains only statements, each closed by [exact]. *)
 From Coq Require Import ZArith List Bool.
 From BV Require Import Gen.C14Tables Model.CryptoBytes Model.Aes Model.Cmac Model.SmToolbox.
 From BV Require Import Model.P256 Model.CryptoBuiltin.
 From BV Require Import Proofs.CryptoBytes Proofs.Cmac Proofs.SmToolbox Proofs.P256 Proofs.Aes.
+From BV Require Import Proofs.AesSpec Proofs.P256Inv Proofs.BuiltinSpec.
 Import ListNotations.
 Open Scope Z_scope.
 
@@ -232,6 +235,70 @@ Theorem C14_aes_tables_are_fips197 :
   aes_ROUNDS = [(16, 10); (24, 12); (32, 14)].
 Proof. exact aes_tables_are_fips197. Qed.
 Print Assumptions C14_aes_tables_are_fips197.
+
+(* ------------------------------------------------------------------ AES as written = FIPS-197 *)
+(* The T-table rounds of _AES.encrypt are SubBytes / ShiftRows / MixColumns / AddRoundKey of
+   FIPS-197 5.1, for every 16-byte block and every list of round keys (any key size) ... *)
+Theorem C14_aes_encrypt_is_fips197_cipher : forall ke pt,
+  length pt = 16%nat -> bytes_ok pt = true -> (2 <= length ke)%nat ->
+  aes_encrypt ke pt = Some (cipher (map st_bytes ke) pt).
+Proof. exact aes_encrypt_is_fips197_cipher. Qed.
+Print Assumptions C14_aes_encrypt_is_fips197_cipher.
+
+(* ... for every 16-byte key _AES.__init__ succeeds and its round keys are FIPS-197 5.2
+   KeyExpansion (Nk = 4) ... *)
+Theorem C14_aes128_key_schedule_is_fips197 : forall key,
+  length key = 16%nat -> bytes_ok key = true ->
+  exists ke, aes_init key = Some ke /\ map st_bytes ke = round_keys_of (key_schedule_128 key) /\
+             length ke = 11%nat.
+Proof. exact aes128_key_schedule_is_fips197. Qed.
+Print Assumptions C14_aes128_key_schedule_is_fips197.
+
+(* ... hence builtin.e is the security function e of Core Vol 3 Part H 2.2.1 (AES-128, values
+   passed least significant byte first) for all 16-byte keys and blocks. *)
+Theorem C14_builtin_e_is_aes128 : forall key data,
+  length key = 16%nat -> bytes_ok key = true -> length data = 16%nat -> bytes_ok data = true ->
+  e_builtin key data = Some (e_spec key data).
+Proof. exact e_builtin_is_aes128. Qed.
+Print Assumptions C14_builtin_e_is_aes128.
+
+(* End to end for the built-in back end: ah, c1, s1 computed with builtin.e equal the Core
+   formulas over FIPS-197 AES-128, for all arguments of the Security Manager sizes. *)
+Theorem C14_builtin_ah_is_core_spec : forall k r,
+  length k = 16%nat -> bytes_ok k = true -> length r = 3%nat -> bytes_ok r = true ->
+  rev (b_ah k r) = spec_ah e_spec (rev k) (rev r).
+Proof. exact builtin_ah_is_core_spec. Qed.
+Print Assumptions C14_builtin_ah_is_core_spec.
+
+Theorem C14_builtin_c1_is_core_spec : forall k r preq pres iat rat ia ra,
+  length k = 16%nat -> bytes_ok k = true -> length r = 16%nat -> bytes_ok r = true ->
+  length preq = 7%nat -> bytes_ok preq = true -> length pres = 7%nat -> bytes_ok pres = true ->
+  length ia = 6%nat -> bytes_ok ia = true -> length ra = 6%nat -> bytes_ok ra = true ->
+  bytes_ok [iat; rat] = true ->
+  exists out, b_c1 k r preq pres iat rat ia ra = Some out /\
+    rev out = spec_c1 e_spec (rev k) (rev r) (rev preq) (rev pres) iat rat (rev ia) (rev ra).
+Proof. exact builtin_c1_is_core_spec. Qed.
+Print Assumptions C14_builtin_c1_is_core_spec.
+
+Theorem C14_builtin_s1_is_core_spec : forall k r1 r2,
+  length k = 16%nat -> bytes_ok k = true ->
+  (8 <= length r1)%nat -> bytes_ok r1 = true -> (8 <= length r2)%nat -> bytes_ok r2 = true ->
+  rev (b_s1 k r1 r2) = spec_s1 e_spec (rev k) (rev r1) (rev r2).
+Proof. exact builtin_s1_is_core_spec. Qed.
+Print Assumptions C14_builtin_s1_is_core_spec.
+
+(* ------------------------------------------------------------------ modular inverse / to_affine *)
+Theorem C14_modinv_correct : forall z p x, 0 < p ->
+  modinv z p = Some x -> (z * x) mod p = 1 mod p /\ 0 <= x < p.
+Proof. exact modinv_correct. Qed.
+Print Assumptions C14_modinv_correct.
+
+Theorem C14_to_affine_correct : forall c X Y Z0 x y, 0 < cp c ->
+  to_affine c (X, Y, Z0) = Affine x y ->
+  (x * Z0 ^ 2) mod cp c = X mod cp c /\ (y * Z0 ^ 3) mod cp c = Y mod cp c /\
+  0 <= x < cp c /\ 0 <= y < cp c.
+Proof. exact to_affine_correct. Qed.
+Print Assumptions C14_to_affine_correct.
 
 (* ------------------------------------------------------------------ tests (vm_compute), not proofs *)
 Definition hex_block (v : Z) : list Z := to_be 16 v.
